@@ -40,6 +40,8 @@ REGISTRY: T.List[T.Tuple[str, str, str, str]] = [
     # ---- backends
     ('backend/backends.py', 'LANGS_CANT_UNITY', 'M', 'constant'),
     ('backend/backends.py', 'self.processed_targets', 'M', 'membership'),
+    ('backend/backends.py', 'seen_generated: T.Set[str] = set()', 'M', '_determine_ext_objs: membership only (skip a generated source '
+     'path already appended); the output order is that of extobj.genlist (repair 84c9e9d)'),
     ('backend/backends.py', 'results = set()', 'U', 'extract_dll_paths: Windows only'),
     ('backend/backends.py', 'prospectives: T.Set', 'U', 'determine_windows_extra_paths: Windows only'),
     ('backend/backends.py', 'internal_deps: T.Set[str] = set()', 'U', 'determine_windows_extra_paths: Windows only'),
